@@ -297,7 +297,8 @@ class Run:
                     if k + 1 < len(segs):
                         self.check_leftovers(f'end of run {k + 1}')
                         for op in self.case.get('between', []):
-                            self.do(tuple(op))
+                            with instrument.external(self.bus):
+                                self.do(tuple(op))
                             self.sh.count('operations_between_runs')
             except Exception as e:
                 import traceback
